@@ -25,6 +25,8 @@ func (g *genState) genRequests(step int, docs map[uuid.UUID]Val) []requestSpec {
 		return g.reqsC06(docs)
 	case "c03":
 		return g.reqsC03(docs)
+	case "c08", "c07", "c09":
+		return g.reqsC08(docs)
 	}
 	return nil
 }
@@ -383,6 +385,9 @@ func (g *genState) extraObs(env *shardEnv, docs map[uuid.UUID]Val, reqs []reques
 	}
 	if g.profile == "c06" {
 		out = append(out, g.extrasC05(docs, reqs)...)
+	}
+	if g.profile == "c08" || g.profile == "c07" || g.profile == "c09" {
+		out = append(out, g.extrasC08(env, docs, reqs)...)
 	}
 	if g.profile == "c01" || g.profile == "c10" {
 		if x, err := dumpPoints(env); err == nil {
@@ -873,6 +878,68 @@ func (g *genState) reqsC03(docs map[uuid.UUID]Val) []requestSpec {
 			}
 		}
 		out = append(out, requestSpec{q: q})
+	}
+	return out
+}
+
+// ---- C08 / C07 / C09: a mix of every query family (ids, filters, flat, text, graph with a pre-filter)
+func (g *genState) reqsC08(docs map[uuid.UUID]Val) []requestSpec {
+	r := g.r
+	out := g.reqsC01(docs)
+	for k := 0; k < 5; k++ {
+		if q, ok := g.genFilter(1); ok {
+			out = append(out, requestSpec{q: q})
+		}
+	}
+	n := len(docs)
+	for _, ix := range g.schema {
+		switch ix.kind {
+		case ixFlat:
+			for k := 0; k < 2; k++ {
+				q := querySpec{kind: "flat", prop: ix.path, vec: g.genVec(ix.dim), limit: 1 + r.IntN(n+2)}
+				if r.IntN(2) == 0 {
+					if f, ok := g.genFilter(1); ok {
+						q.filter = &f
+					}
+				}
+				out = append(out, requestSpec{q: q})
+			}
+		case ixVamana:
+			for k := 0; k < 2; k++ {
+				q := querySpec{kind: "vamana", prop: ix.path, vec: g.genVec(ix.dim), search: 30, limit: 1 + r.IntN(10)}
+				if f, ok := g.genFilter(1); ok { // a pre-filter smaller than the search window: exact regime
+					q.filter = &f
+				}
+				out = append(out, requestSpec{q: q})
+			}
+		case ixText:
+			for k := 0; k < 2; k++ {
+				text := g.pick(g.words) + " " + g.pick(g.words)
+				toks, err := text_VerifAnalyse(text)
+				if err != nil {
+					continue
+				}
+				out = append(out, requestSpec{q: querySpec{kind: "text", prop: ix.path, sv: text, terms: toks, op: 8 + r.IntN(2), limit: 1 + r.IntN(n+2)}})
+			}
+		}
+	}
+	return out
+}
+
+func (g *genState) extrasC08(env *shardEnv, docs map[uuid.UUID]Val, reqs []requestSpec) []string {
+	var out []string
+	for _, ix := range g.schema {
+		switch ix.kind {
+		case ixFlat:
+			out = append(out, g.vecExtras(env, ix, "index/vectorFlat/"+ix.path, "flat", docs, reqs)...)
+		case ixVamana:
+			out = append(out, g.vecExtras(env, ix, "index/vectorVamana/"+ix.path, "vamana", docs, reqs)...)
+		case ixText:
+			sv := g.schema
+			g.schema = schemaSpec{ix}
+			out = append(out, g.extrasC05(docs, reqs)...)
+			g.schema = sv
+		}
 	}
 	return out
 }
